@@ -13,6 +13,10 @@ package vault
 //                              renew / revoke flows
 //   TestVerif_C05_RetryBudget  O3: failing revocations end in the irrevocable state within the retry
 //                              budget; expired / irrevocable leases refuse renewal; recovery
+//   TestVerif_C05_LeaseKinds / _LeaseKindsCrash (c05_kinds_test.go)
+//                              O2, strict form, over every lease kind (non-expiring root tokens, use-limited,
+//                              periodic, orphan, batch lessees, child namespaces) x queued / sync revocation
+//                              paths x restarts and crash prefixes
 //
 // The reference is written from the property text and docs (concepts/tokens.mdx, api/auth/token.mdx).
 
